@@ -191,4 +191,45 @@ pub fn run(rec: &mut Recorder, w: &mut World, tier: &str, seed: u64) {
         }
         rec.nontrivial_case(&format!("pattern|{}", descr.join("|")));
     }
+    // ---- pattern domain names (implementation only: a domain-matching function on the role manager): a request domain is
+    //      matched against the stored domains, so one request may draw on several of them; additions and removals of links in
+    //      concrete and in pattern domains stay monotone ----
+    let n_dpat = (if tier == "thorough" { 2000 } else { 250 }) * rec.budget as usize;
+    let dk = ks.iter().find(|k| k.name == "domains").unwrap().clone();
+    let dm = model_of(&dk, E_ALLOW, false, "", false);
+    let dsubs = ["alice", "bob", "admin", "auditor"];
+    let sdoms = ["*", "domain1", "domain2", "domain*"];
+    let mut dreqs: Vec<Vec<String>> = vec![];
+    for s in dsubs { for d in ["domain1", "domain2", "domain3"] { dreqs.push(vec![sval(s), sval(d), sval("data1"), sval("read")]); } }
+    let dreqf = enc_reqs(&dreqs);
+    for _ in 0..n_dpat {
+        rec.begin();
+        dm.emit(rec, w);
+        if rec.exec_impl_only(w, "e.new\tmemory\t-\t\t-") != "ok" { rec.fail("new-failed", "pattern-domain stream: cannot build the enforcer".into()); continue; }
+        rec.exec_impl_only(w, "e.rolematch\t-\tkeyMatch");
+        // permission rules name concrete domains only (the matcher compares r.dom with p.dom literally)
+        for _ in 0..1 + rng.below(3) { rec.exec_impl_only(w, &MOp::Add("p".into(), "p".into(), sv(&[*rng.pick(&["admin", "auditor", "alice"]), *rng.pick(&["domain1", "domain2"]), "data1", "read"])).line()); }
+        let mut before = rec.exec_impl_only(w, &format!("e.enfs\t{}", dreqf));
+        let mut links: Vec<Vec<String>> = vec![];
+        let mut descr: Vec<String> = vec![];
+        for _ in 0..2 + rng.below(6) {
+            let (line, kind) = if links.is_empty() || rng.chance(2, 3) {
+                let r = sv(&[*rng.pick(&dsubs), *rng.pick(&["admin", "auditor"]), *rng.pick(&sdoms)]);
+                if r[0] == r[1] || links.contains(&r) { continue; }
+                links.push(r.clone()); (MOp::Add("g".into(), "g".into(), r).line(), "add-link")
+            } else { let i = rng.below(links.len()); (MOp::Rm("g".into(), "g".into(), links.remove(i)).line(), "remove-link") };
+            rec.exec_impl_only(w, &line);
+            descr.push(line.replace('\t', " "));
+            let after = rec.exec_impl_only(w, &format!("e.enfs\t{}", dreqf));
+            let (gb, ga) = (granted(&before), granted(&after));
+            let viol = if kind == "add-link" { incl(&gb, &ga).map(|i| (i, "an addition revoked a grant")) } else { incl(&ga, &not_denied(&before)).map(|i| (i, "a removal granted a request")) };
+            rec.count(&format!("pattern-domains:{}", kind));
+            if let Some((i, what)) = viol {
+                rec.fail("not-monotone-pattern-domains", format!("[domains allow-override, domain matching fn keyMatch] {}: request {:?} went {} -> {} after {}", what, dreqs[i], &before[i..i + 1], &after[i..i + 1], descr.join(" ; ")));
+            }
+            if after.contains('t') { rec.count("pattern-domains:state-with-grants"); }
+            before = after;
+        }
+        rec.nontrivial_case(&format!("dpattern|{}", descr.join("|")));
+    }
 }
